@@ -1022,7 +1022,7 @@ func run(seed int64, n int, dir string, _ []string) {
 			m := shrink(j, l, tries, budget)
 			var r result
 			if isHang {
-				m.Timeout = 4 * hangBound
+				m.Timeout = hangBound // the original was confirmed alone with 4 times the bound; the shrunk form must reach the bound itself
 				if strings.Join(m.argv(), "\x00") == strings.Join(orig.argv(), "\x00") {
 					r = firstOf[l].r // nothing was removed: already confirmed alone with 4 times the bound
 				} else if r = execJob(m); !r.timedOut {
